@@ -35,7 +35,7 @@ def build_deck(r):
     if ca in ('trclinline', 'trclstar'):
         return {'surfs': [dict(card, n=1)], 'trs': [],
                 'cells': [{'n': 1, 'geom': ['S', -1, fk], 'hastrcl': True, 'trcl': body,
-                           'trclspell': 'star' if ca == 'trclstar' else sp},
+                           'trclspell': sp if ca == 'trclstar' and sp == 'star3' else ('star' if ca == 'trclstar' else sp)},
                           {'n': 2, 'geom': ['C', 1]}]}
     if ca == 'implicitdense':
         # explicit surfaces 1 (a far plane), 2 (the sample), 3000 (outer sphere); cell 3 = "-1 -2" carries the TRCL;
